@@ -9,12 +9,15 @@
    - labels never enter a kernel (by typing: the kernels take no labels).
    - TOPSIS: distances under any order of the criteria (every metric), distances, similarity and ranking
      under any order of the alternatives; the reference-point score under any order of the criteria.
-   Pipelines (scalers / inverters / weighters in front of a method) are covered by the two-presentation
-   correspondence only. *)
+   - pipelines, step by step: every rational scaler (and the rational cores of VectorScaler / StandarScaler)
+     commutes with a reordering of the alternatives, column by column, up to ==.
+   That a whole pipeline (scalers / inverters / weighters in front of a method) composes these facts - every
+   kernel respects == - is covered by the two-presentation correspondence only. *)
 From Coq Require Import ZArith QArith List Bool Arith Permutation.
 From Coq Require Import Reals.
 From SKC Require Import Base.QBool Base.QList Base.QRank Model.Agg Model.Electre Theory.Agg Theory.RankFacts Theory.Invariance
-  Theory.RealClosing Theory.MultiMoora Theory.RankPerm Theory.RankPerm2 Theory.ElectreInv Theory.CritPerm.
+  Theory.RealClosing Theory.MultiMoora Theory.RankPerm Theory.RankPerm2 Theory.ElectreInv Theory.CritPerm Theory.ScalerPerm.
+From SKC Require Import Model.Transform.
 Import ListNotations.
 
 (* ---- order of the alternatives -------------------------------------------------------------------- *)
@@ -216,6 +219,27 @@ Theorem C05_topsis_result_follows_alternatives : forall mt objs w sigma rows,
   end.
 Proof. exact topsis_result_follows_alternatives. Qed.
 Print Assumptions C05_topsis_result_follows_alternatives.
+
+(* ---- pipeline steps commute with reordering the alternatives --------------------------------------------- *)
+Theorem C05_rational_scalers_follow_alternatives : forall m sigma rows j,
+  Permutation sigma (seq 0 (length rows)) -> (j < m)%nat ->
+  forall f, (f = sum_scale \/ f = maxabs_scale \/ (exists lo hi, f = minmax_scale lo hi) \/ f = push_neg \/
+             exists e, f = add_zero e) ->
+  Forall2 Qeq (col (on_matrix m f (reindex [] sigma rows)) j) (reindex 0 sigma (col (on_matrix m f rows) j)).
+Proof. exact rational_scalers_follow_alternatives. Qed.
+Print Assumptions C05_rational_scalers_follow_alternatives.
+
+Theorem C05_irrational_scaler_cores_do_not_depend_on_order : forall sigma v,
+  Permutation sigma (seq 0 (length v)) ->
+  sumsq (reindex 0 sigma v) == sumsq v /\ mean (reindex 0 sigma v) == mean v /\ pvar (reindex 0 sigma v) == pvar v.
+Proof. exact cores_reindex. Qed.
+Print Assumptions C05_irrational_scaler_cores_do_not_depend_on_order.
+
+Theorem C05_cenit_scaler_follows_alternatives : forall sigma v mx,
+  Permutation sigma (seq 0 (length v)) ->
+  Forall2 Qeq (cenit_col mx (reindex 0 sigma v)) (reindex 0 sigma (cenit_col mx v)).
+Proof. intros sigma v mx P. exact (cenit_col_reindex sigma v P mx). Qed.
+Print Assumptions C05_cenit_scaler_follows_alternatives.
 
 Example C05_example :
   dot [1; 2; 3] [4; 5; 6] == dot [3; 1; 2] [6; 4; 5] /\
